@@ -161,6 +161,34 @@ CHECKS = [
                 "into an inconclusive result; one known finding (adapter initialisation failure) is listed.",
     },
     {
+        "property_id": "C14",
+        "level": "exploration",
+        "technique": "property-based differential testing (Hypothesis): the same seeded run under different process "
+                     "counts and delay-perturbed schedules, chain sets and starts; generator-state probe for stream "
+                     "identity",
+        "text": "Outputs must be bit-identical across n_process 1..4 with per-chain delays permuting completion order, "
+                "on repetition, and per chain when other chains are added or moved (no adapters); a probe reads the "
+                "next 64-bit output of each chain's generator at every iteration of every stage and all values must be "
+                "pairwise distinct (replayed or shared streams collide). Sampling; the OS schedule is perturbed, not "
+                "owned.",
+        "design_ref": "DESIGN.md section 2, C14",
+        "note": "Worker assignments that delays cannot provoke are not explored; 64-bit chance collisions ~ n^2 2^-64.",
+    },
+    {
+        "property_id": "C15",
+        "level": "fault_enumeration",
+        "technique": "exhaustive interrupt-point injection (every chain x iteration x call site, and every in-iteration "
+                     "call index of density/gradient) over a fixed configuration family, plus Hypothesis-generated "
+                     "configurations; differential against the uninterrupted run using an independent iteration log",
+        "text": "KeyboardInterrupt is raised from user callbacks at every enumerated point of small sequential and "
+                "2-process runs (1-3 stages, with and without adapters, in-memory and memmap): the call must return, "
+                "completed rows equal the uninterrupted run, unreached rows hold fill values, later stages do not "
+                "run, final states are states the chain occupied, files on disk equal the returned arrays.",
+        "design_ref": "DESIGN.md section 2, C15",
+        "note": "Interrupts during adapter initialisation / array allocation (outside an iteration) are outside the "
+                "property's quantifier; signal delivery is modelled by raising from callbacks.",
+    },
+    {
         "property_id": "C17",
         "level": "exploration",
         "technique": "property-based testing (Hypothesis): dual-averaging recursion re-implemented from the paper; "
